@@ -350,14 +350,19 @@ def run(report, p):
                 continue
             for a in [x for x in ast.walk(lp) if isinstance(x, ast.Assign)]:
                 t = a.targets[0]
-                if isinstance(t, ast.Subscript) and isinstance(t.value, ast.Name) and t.value.id == acc and isinstance(a.value, ast.Subscript):
+                is_get = isinstance(a.value, ast.Call) and isinstance(a.value.func, ast.Attribute) and a.value.func.attr == "get" and a.value.args
+                if isinstance(t, ast.Subscript) and isinstance(t.value, ast.Name) and t.value.id == acc and (isinstance(a.value, ast.Subscript) or is_get):
                     comp.append((lp, a))
     ghm = cfg_of(hm)
     okc = bool(comp) and all(ghm.node_for(merges[0]).id in ghm.reachable_from([ghm.node_for(a)]) for _, a in comp)
     if comp and okc:
         lp, a = comp[0]
         tv = lp.target.elts if isinstance(lp.target, ast.Tuple) else []
-        okc = len(tv) == 2 and norm(a.targets[0].slice) == norm(tv[0]) and norm(a.value.slice) == norm(tv[1]) and norm(lp.iter) == f"{acc}.items()"
+        if isinstance(a.value, ast.Subscript):
+            looked_up = norm(a.value.slice)  # acc[k] = gen[v]   (under `v in gen`)
+        else:
+            looked_up = norm(a.value.args[0])  # acc[k] = gen.get(v, v): the default keeps the entries this generation does not rename (a missing default is R17.1's business)
+        okc = len(tv) == 2 and norm(a.targets[0].slice) == norm(tv[0]) and looked_up == norm(tv[1]) and norm(lp.iter) == f"{acc}.items()"
     r7.check(okc, hm, merges[0], f"each generation's renames are merged into the map with `{norm(merges[0])[:60]}` without advancing the entries that already point at a path this generation renames: after A -> B and, a generation later, B -> C the map still says A -> B, the expected set contains B, and verify / diff / create report B as missing although `create -dr` accepted the tree", construct="rename map not composed across generations")
 
     # ------------------------------------------------------------------ R17.6
